@@ -146,6 +146,16 @@ def gen_plan(rng, i: int, tier: str) -> dict:
             ops.append(dict(ops[j], fl=rng.choice(("sync", "async")), group=None, data_from_op=j))
             ops.append(dict(ops[j], fl="sync", group=None, data_from_op=len(ops) - 1))
             plan["reprotect"] = True
+    if plan["seed"] % 7 == 4 and kind in ("identical-offline", "mixed", "alternating"):
+        # the entropy source itself fails from some point on (os.urandom raises): protect may fail, it must not make up "randomness"
+        at = 1 + plan["seed"] % max(1, len(ops))
+        ops.insert(min(at, len(ops)), {"op": "entropy_fault", "sources": ["urandom"] if plan["seed"] % 2 else ["urandom", "aesgcm.generate_key"]})
+        for o in ops:  # (indices of later ops moved by one)
+            if isinstance(o.get("blob"), dict) and "from_op" in o["blob"] and o["blob"]["from_op"] >= at:
+                o["blob"]["from_op"] += 1
+            if o.get("data_from_op") is not None and o["data_from_op"] >= at:
+                o["data_from_op"] += 1
+        plan["entropy_fault"] = True
     if plan["seed"] % 7 == 2:
         # the entropy device misbehaves for whoever opens it as a file (EOF in a chroot, short reads); os.urandom is unaffected
         plan["entropy_device"] = {"mode": ("eof", "short")[(plan["seed"] // 7) % 2], "max": (1, 5, 11)[(plan["seed"] // 14) % 3]}
@@ -172,13 +182,13 @@ class C19(common.Check):
             "after a protect and parent and child both go on protecting, and histories whose key position alternates (clock stepping between two "
             "intervals and back, two root keys used in turn), histories in which the application re-seeds Python's global PRNG with the same value "
             "before every call, public-key replies whose PublicKeyLength field is 0 / 8 / 2^32-1, histories in which the blob an earlier protect returned is protected again, "
-            "histories under a /dev/urandom that returns EOF or short reads to whoever opens it as a file (the child's entropy source is re-keyed, buffered state is shared). From each emitted blob the "
+            "histories under a /dev/urandom that returns EOF or short reads to whoever opens it as a file, histories in which os.urandom starts raising (the child's entropy source is re-keyed, buffered state is shared). From each emitted blob the "
             "reference extracts GCM nonce and key_info and recovers the CEK; all must be pairwise distinct within the history. "
             "Non-trivial = history with >= 2 successful protects; distinct = distinct plan.")
     components = {"client": "real (public API, KeyCache, _encrypt_blob, cek_generate, new_kek)", "entropy": "simulated (os.urandom and AESGCM.generate_key seams, ledger)",
                   "clock": "simulated, frozen", "DC": "model (RefDC)", "security context": "stub (StubCtx)", "blob opener": "model (ref.cms/ref.gkdi)"}
     assumptions = ["the simulated entropy source never repeats a draw; real-world collision probability of fresh 96/256-bit values is outside the claim"]
-    required_fired = ("mode_pub", "mode_nonce", "provenance_ok", "forked_histories", "alternating_positions", "thread_histories", "thread_overlap", "app_reseed_histories", "odd_length_field_histories", "reprotect_histories", "entropy_device_fault_histories")
+    required_fired = ("mode_pub", "mode_nonce", "provenance_ok", "forked_histories", "alternating_positions", "thread_histories", "thread_overlap", "app_reseed_histories", "odd_length_field_histories", "reprotect_histories", "entropy_device_fault_histories", "entropy_source_failure_histories")
 
     def cases(self, tier, seed):
         rng = prng.stream(seed, "C19")
@@ -226,6 +236,8 @@ class C19(common.Check):
             probes["reprotect_histories"] = 1
         if case.get("entropy_device"):
             probes["entropy_device_fault_histories"] = 1
+        if case.get("entropy_fault"):
+            probes["entropy_source_failure_histories"] = 1
         if case.get("kind") == "app-reseed":
             probes["app_reseed_histories"] = 1
         if case.get("kind") == "pub-reply-odd-length-field":
